@@ -2,8 +2,8 @@ SPECIFICATION Spec
 CONSTANTS
   NQ = 2
   Depth = 2
-  MCGates = {"h", "s", "t", "v", "rx", "rz", "cx", "ch", "crz", "zz_phase", "phased_x"}
-  MCTs <- MCTsQuick
+  MCGates = {"h", "t", "rx", "cx", "crz", "phased_x"}
+  MCTs <- MCTsQuick1
 INVARIANT TypeOK
 INVARIANT NormPreserved
 INVARIANT BranchWeights
